@@ -232,9 +232,77 @@ impl ConnectionHandler for ProbeHandler {
 // ---------------------------------------------------------------------------------------------
 // driver
 
+/// object-safe view of `VConnection<H>` for any handler type (plain or wrapped)
+pub trait ConnDyn {
+    fn poll_dyn(&mut self, cx: &mut Context<'_>) -> Poll<Result<String, ConnectionError>>;
+}
+impl<H: ConnectionHandler> ConnDyn for VConnection<H> {
+    fn poll_dyn(&mut self, cx: &mut Context<'_>) -> Poll<Result<String, ConnectionError>> {
+        self.poll(cx).map(|r| {
+            r.map(|e| match e {
+                VEvent::Handler(e) => format!("handler:{e:?}"),
+                VEvent::AddressChange(a) => format!("addr:{a}"),
+            })
+        })
+    }
+}
+
+/// The probe handler plain or wrapped in one of libp2p-swarm's own handler combinators.
+/// `SelectSecond` / `EitherRight`: see `Driver::new_wrapped`.
+#[derive(Clone, Copy, Debug, PartialEq, Eq, serde::Serialize, serde::Deserialize)]
+pub enum Wrap {
+    Plain,
+    MapOut,
+    /// `probe.select(idle probe)`; the keep-alive flips concern the first (primary) handler
+    SelectFirst,
+    /// `probe.select(other probe)`; the keep-alive flips concern the SECOND handler, streams the first
+    SelectSecond,
+    EitherLeft,
+    EitherRight,
+    /// `ToggleConnectionHandler` obtained from an enabled `Toggle<behaviour>`
+    Toggle,
+}
+pub const WRAPS: [Wrap; 7] = [Wrap::Plain, Wrap::MapOut, Wrap::SelectFirst, Wrap::SelectSecond, Wrap::EitherLeft, Wrap::EitherRight, Wrap::Toggle];
+
+fn map_out_id(e: String) -> String {
+    e
+}
+// (`map_in_event` cannot be instantiated from outside the crate: the method demands
+// `Fn(&TNewIn) -> Option<&FromBehaviour>` while `MapInEvent`'s ConnectionHandler impl demands
+// `Fn(TNewIn) -> Option<FromBehaviour>`; no stable closure/fn satisfies both.)
+
+/// minimal behaviour handing out one prepared probe handler (to obtain a ToggleConnectionHandler)
+struct MiniBeh(Option<ProbeHandler>);
+impl libp2p_swarm::NetworkBehaviour for MiniBeh {
+    type ConnectionHandler = ProbeHandler;
+    type ToSwarm = ();
+    fn handle_established_inbound_connection(&mut self, _: libp2p_swarm::ConnectionId, _: libp2p_identity::PeerId, _: &multiaddr::Multiaddr, _: &multiaddr::Multiaddr) -> Result<ProbeHandler, libp2p_swarm::ConnectionDenied> {
+        Ok(self.0.take().expect("one handler"))
+    }
+    fn handle_established_outbound_connection(
+        &mut self,
+        _: libp2p_swarm::ConnectionId,
+        _: libp2p_identity::PeerId,
+        _: &multiaddr::Multiaddr,
+        _: libp2p_core::Endpoint,
+        _: libp2p_core::transport::PortUse,
+    ) -> Result<ProbeHandler, libp2p_swarm::ConnectionDenied> {
+        Ok(self.0.take().expect("one handler"))
+    }
+    fn on_swarm_event(&mut self, _: libp2p_swarm::FromSwarm) {}
+    fn on_connection_handler_event(&mut self, _: libp2p_identity::PeerId, _: libp2p_swarm::ConnectionId, _: String) {}
+    fn poll(&mut self, _: &mut Context<'_>) -> Poll<libp2p_swarm::ToSwarm<(), String>> {
+        Poll::Pending
+    }
+}
+
 pub struct Driver {
-    pub conn: VConnection<ProbeHandler>,
+    pub conn: Box<dyn ConnDyn>,
+    /// state of the primary probe handler (streams, requests, protocol lists, folds)
     pub h: Arc<Mutex<HState>>,
+    /// state of the handler whose keep-alive answer the harness flips (= `h` except for
+    /// `SelectSecond`)
+    pub ka: Arc<Mutex<HState>>,
     pub mux: Arc<Mutex<MuxState>>,
     flag: Arc<Flag>,
     pub polls: u64,
@@ -242,28 +310,55 @@ pub struct Driver {
 
 pub const FOREVER: Duration = Duration::from_secs(10 * 365 * 86400);
 
+fn hstate(protocols: Vec<String>, keep_alive: bool, upgrade_timeout: Duration) -> Arc<Mutex<HState>> {
+    Arc::new(Mutex::new(HState {
+        protocols,
+        keep_alive,
+        local_fold: BTreeSet::new(),
+        remote_fold: BTreeSet::new(),
+        redundant: 0,
+        local_events: 0,
+        remote_events: 0,
+        report: VecDeque::new(),
+        report_on_local: VecDeque::new(),
+        want_outbound: 0,
+        next_request: 0,
+        streams: Vec::new(),
+        log: Vec::new(),
+        upgrade_timeout,
+        errors: 0,
+    }))
+}
+
 impl Driver {
     pub fn new(protocols: Vec<String>, keep_alive: bool, idle_timeout: Duration, upgrade_timeout: Duration, max_negotiating_inbound: usize) -> Self {
-        let h = Arc::new(Mutex::new(HState {
-            protocols,
-            keep_alive,
-            local_fold: BTreeSet::new(),
-            remote_fold: BTreeSet::new(),
-            redundant: 0,
-            local_events: 0,
-            remote_events: 0,
-            report: VecDeque::new(),
-            report_on_local: VecDeque::new(),
-            want_outbound: 0,
-            next_request: 0,
-            streams: Vec::new(),
-            log: Vec::new(),
-            upgrade_timeout,
-            errors: 0,
-        }));
+        Self::new_wrapped(Wrap::Plain, protocols, keep_alive, idle_timeout, upgrade_timeout, max_negotiating_inbound)
+    }
+
+    pub fn new_wrapped(wrap: Wrap, protocols: Vec<String>, keep_alive: bool, idle_timeout: Duration, upgrade_timeout: Duration, max_negotiating_inbound: usize) -> Self {
+        let second_ka = wrap == Wrap::SelectSecond;
+        let h = hstate(protocols, keep_alive && !second_ka, upgrade_timeout);
+        // the other handler of a select: advertises an unrelated protocol, never asks for streams
+        let h2 = hstate(vec!["/z".into()], keep_alive && second_ka, upgrade_timeout);
         let mux = Arc::new(Mutex::new(MuxState::default()));
-        let conn = VConnection::new(StreamMuxerBox::new(ScriptMuxer(mux.clone())), ProbeHandler(h.clone()), None, max_negotiating_inbound, idle_timeout);
-        Driver { conn, h, mux, flag: Arc::new(Flag(AtomicBool::new(false))), polls: 0 }
+        let m = StreamMuxerBox::new(ScriptMuxer(mux.clone()));
+        let ph = ProbeHandler(h.clone());
+        let conn: Box<dyn ConnDyn> = match wrap {
+            Wrap::Plain => Box::new(VConnection::new(m, ph, None, max_negotiating_inbound, idle_timeout)),
+            Wrap::MapOut => Box::new(VConnection::new(m, ph.map_out_event(map_out_id as fn(String) -> String), None, max_negotiating_inbound, idle_timeout)),
+            Wrap::SelectFirst | Wrap::SelectSecond => Box::new(VConnection::new(m, ph.select(ProbeHandler(h2.clone())), None, max_negotiating_inbound, idle_timeout)),
+            Wrap::EitherLeft => Box::new(VConnection::new(m, libp2p_swarm::derive_prelude::Either::<ProbeHandler, ProbeHandler>::Left(ph), None, max_negotiating_inbound, idle_timeout)),
+            Wrap::EitherRight => Box::new(VConnection::new(m, libp2p_swarm::derive_prelude::Either::<ProbeHandler, ProbeHandler>::Right(ph), None, max_negotiating_inbound, idle_timeout)),
+            Wrap::Toggle => {
+                use libp2p_swarm::NetworkBehaviour;
+                let mut t = libp2p_swarm::behaviour::toggle::Toggle::from(Some(MiniBeh(Some(ph))));
+                let a: multiaddr::Multiaddr = "/memory/1".parse().unwrap();
+                let th = t.handle_established_inbound_connection(libp2p_swarm::ConnectionId::new_unchecked(1), kit::ids::peer(1), &a, &a).expect("toggle handler");
+                Box::new(VConnection::new(m, th, None, max_negotiating_inbound, idle_timeout))
+            }
+        };
+        let ka = if second_ka { h2 } else { h.clone() };
+        Driver { conn, h, ka, mux, flag: Arc::new(Flag(AtomicBool::new(false))), polls: 0 }
     }
 
     /// Poll the connection (as its task would, whenever woken) until it is pending with no
@@ -275,9 +370,8 @@ impl Driver {
         for _ in 0..10_000 {
             self.flag.0.store(false, SeqCst);
             self.polls += 1;
-            match self.conn.poll(&mut cx) {
-                Poll::Ready(Ok(VEvent::Handler(e))) => evs.push(format!("handler:{e}")),
-                Poll::Ready(Ok(VEvent::AddressChange(a))) => evs.push(format!("addr:{a}")),
+            match self.conn.poll_dyn(&mut cx) {
+                Poll::Ready(Ok(e)) => evs.push(e),
                 Poll::Ready(Err(e)) => return Err(e),
                 Poll::Pending => {
                     if !self.flag.0.load(SeqCst) {
